@@ -129,6 +129,23 @@ class UserAcc(object):
             yield (self.tag, i, [split_val(v)[0] for v in self.vals])
 
 
+class CallFC(object):
+    """callable that also has fill and compute (no run): in a Sequence it is a
+    transformation of values (Run's documented order: run, then call, then fill/compute)"""
+
+    def __init__(self):
+        self.vals = []
+
+    def __call__(self, v):
+        return with_data(v, lambda d: ("cf", d))
+
+    def fill(self, v):
+        self.vals.append(v)
+
+    def compute(self):
+        yield ("computed", len(self.vals))
+
+
 class NumSum(object):
     """Sum that ignores non-numbers (keeps generated chains total)"""
 
@@ -169,6 +186,8 @@ def build(r):
         return End()
     if k == "print":
         return Print(before=r[1], transform=lambda v: "p", end="")
+    if k == "callfc":
+        return CallFC()
     if k == "sum":
         return NumSum()
     if k == "fc_count":
@@ -224,7 +243,7 @@ def build_branch(b):
 
 def kind(r):
     k = r[0]
-    if k in ("map", "var", "print"):
+    if k in ("map", "var", "print", "callfc"):
         return "call"
     if k in ACCS:
         return "acc"
@@ -278,6 +297,7 @@ def el_recipes(depth=2, with_split=True, streaming_only=False):
         st.builds(lambda n: ["count", n], st.sampled_from(["count", "n2"])),
     ]
     if not streaming_only:
+        base.append(st.just(["callfc"]))
         base += [
             st.just(["reverse"]), st.just(["end"]),
             st.builds(lambda a: [a], st.sampled_from(ACCS)),
